@@ -163,28 +163,43 @@ def case_pass(case):
     from .. import xshim
 
     kind, shape = case
-    src = dart_operation_src(kind, shape)
+    if kind == "multi":
+        # several operations in one module (one pass run): functions renamed so that they can live side by side
+        src = "\n".join(dart_operation_src(k2, s2).replace("@f(", f"@f{n}(") for n, (k2, s2) in enumerate(shape))
+    else:
+        src = dart_operation_src(kind, shape)
 
     def run_pass():
         ctx = xshim.make_ctx()
         m = Parser(ctx, src).parse_module()
         ops = [o for o in m.walk() if isinstance(o, dart.OperationOp)]
-        op = ops[0]
-        bounds = tuple(op.get_static_pattern_bounds())
-        before = [SchedulePattern(bounds, p.data) for p in op.patterns.data]
+        befores = []
+        for op in ops:
+            bounds = tuple(op.get_static_pattern_bounds())
+            befores.append([SchedulePattern(bounds, p.data) for p in op.patterns.data])
         DartSchedulerPass().apply(ctx, m)
-        so = [o for o in m.walk() if isinstance(o, dart.ScheduleOp)][0]
-        nb = tuple(b.value.data for b in so.bounds.data)
-        after = [SchedulePattern(nb, p.data) for p in so.patterns.data]
-        return before, after
+        sos = [o for o in m.walk() if isinstance(o, dart.ScheduleOp)]
+        afters = []
+        for so in sos:
+            nb = tuple(b.value.data for b in so.bounds.data)
+            afters.append([SchedulePattern(nb, p.data) for p in so.patterns.data])
+        return befores, afters
 
     def fn():
-        before, after = run_pass()
-        sc.oblige_reindex("dart_scheduler_pass", before, after)
+        befores, afters = run_pass()
+        eng().oblige("dart_scheduler_pass:one_schedule_per_operation", len(befores) == len(afters), dict(operations=len(befores), schedules=len(afters)))
+        for before, after in zip(befores, afters):
+            sc.oblige_reindex("dart_scheduler_pass", before, after)
 
     def replay(f):
-        before, after = run_pass()
-        return replay_multiset(before, after)
+        befores, afters = run_pass()
+        if len(befores) != len(afters):
+            return True, dict(operations=len(befores), schedules=len(afters))
+        for before, after in zip(befores, afters):
+            ok, d = replay_multiset(before, after)
+            if ok:
+                return ok, d
+        return False, {}
 
     return run_case(fn, replay, witness=True, signature=lambda f, v: "dart_scheduler_pass:" + f["name"].split(":")[-1],
                     sample=dict(kind=kind, shape=shape), key=str(case))
@@ -230,10 +245,13 @@ func.func @f(%a: memref<{M}x{K}xi8>, %b: memref<{K}x{N}xi8>, %c: memref<{M}x{N}x
 
 
 def run(chk):
+    from .. import runner as _runner
+
+    _runner.CASE_TIMEOUT_S = min(_runner.CASE_TIMEOUT_S, 40)
     quick = chk.tier == "quick"
     only = getattr(chk, "only", None)
     rnd = random.Random(chk.seed)
-    fams = sc.families(chk.tier)
+    fams = sc.families(chk.tier) + sc.random_families(rnd, 3 if quick else 40)
     chk.functions = [
         "snaxc.ir.dart.access_pattern.SchedulePattern.rotate/tile_dim/add_dim",
         "snaxc.ir.dart.access_pattern.PatternCollection.clear_unused_dims/canonicalize",
@@ -274,6 +292,9 @@ def run(chk):
     cases = [("alu", (n,)) for n in ((16, 64, 4, 12) if quick else (4, 8, 12, 16, 20, 64, 128, 1000))]
     cases += [("gemmx", s) for s in (((16, 16, 16), (8, 8, 8), (32, 8, 24), (16, 24, 8)) if quick else
                                      [(a, b, c) for a in (8, 16, 40) for b in (8, 24) for c in (8, 16, 64)])]
+    # several operations with equal access maps but different shapes in one module
+    cases.append(("multi", (("gemmx", (16, 16, 16)), ("gemmx", (24, 8, 16)), ("gemmx", (16, 16, 16)), ("gemmx", (8, 32, 8)))))
+    cases.append(("multi", (("alu", (16,)), ("alu", (64,)), ("gemmx", (8, 8, 8)), ("alu", (4,)))))
     if only in (None, "pass"):
         chk.add_results("dart_scheduler_pass", pmap(case_pass, cases))
     chk.bounds = dict(families=[f[0] for f in fams], bounds="symbolic >= 1, unbounded", tile_sizes="2,3,8 / 2,3,4,8,16",
